@@ -1,9 +1,9 @@
 #!/bin/bash
 # C09/C16: directory pruning is not conservative when the literal prefix of a --path pattern
 # contains a non-ASCII character (fclones/src/regex.rs: is_partial_match, get_fixed_prefix)
-CHECKOUT=${1:-/tmp/hunt/n4}
-F=/tmp/hunt/n4/target/debug/fclones
-T=$(mktemp -d /tmp/hunt/n4-out/r1XXXXXX) || exit 2
+CHECKOUT=${1:-/repo}
+F=${1:-/repo}/target/debug/fclones
+T=$(mktemp -d /tmp/r1XXXXXX) || exit 2
 trap 'rm -rf "$T"' EXIT
 bad=0
 for d in zdjęcia zdjecia; do
